@@ -16,7 +16,13 @@ for sid in sorted(os.listdir(os.path.join(ROOT, 'seeded'))):
     missed = [c for c, v in m.get('checks', {}).items() if not v.get('fired')]
     keys = [re.sub(r'\s+\(\d+ occ.*', '', v['keys'][0][4:]) for c, v in m.get('checks', {}).items() if v.get('fired') and v.get('keys')]
     valid = m.get('golden_tests_pass') and m.get('demo_on_changed', {}).get('exit') == 1 and m.get('demo_on_unchanged', {}).get('exit') == 0
-    rows.append((sid, m['property'], ', '.join(files), first[:110], 'yes' if valid else 'NO', ', '.join(fired) or '-', ', '.join(missed) or '-', (keys[0] if keys else '')[:70]))
+    conf = 'yes' if valid else 'NO'
+    if m.get('valid_on_current_head') is False:
+        conf = 'not on HEAD (see meta.json)'
+    first = re.sub(r'^(C\d\d )?(seeded )?[Bb]ug \d+\s*(--|-|:|–|—)?\s*', '', first)
+    first = re.sub(r'^Seed C\d\d / \d\s*--\s*', '', first)
+    hist = ' (after strengthening)' if m.get('history') and fired else ''
+    rows.append((sid, m['property'], ', '.join(files), first[:100].replace('|', '/'), conf, (', '.join(fired) + hist) if fired else '-', ', '.join(missed) or '-', (keys[0] if keys else '')[:60].replace('|', '/')))
 print('| seed | property | file(s) | what it is | confirmed | caught by | missed by | first key |')
 print('|---|---|---|---|---|---|---|---|')
 for r in rows:
